@@ -4,31 +4,45 @@ PROP = {
     "id": "C19",
     "props_file": "coq/C19/Props.v",
     "props_module": "C19.Props",
-    "coq_targets": ["C19/Props.vo", "C19/Multi.vo"],
+    "coq_targets": ["C19/Props.vo", "C19/Multi.vo", "C19/MultiTx.vo", "C19/ProofsMulti.vo", "C19/BaseFee.vo", "C19/ProofsBaseFee.vo"],
     "uses_kernels": False,
     "allowed_axioms": [],
     "suites": [{
         "name": "evmfee",
         "harness": "c19",
-        "header": "From Coq Require Import List String ZArith.\nFrom Exo Require Import Base.IntDec Base.Util C19.Model.\nImport ListNotations.",
+        "header": "From Coq Require Import List String ZArith.\nFrom Exo Require Import Base.IntDec Base.Util C19.Model C19.MultiTx C19.Multi.\nImport ListNotations.",
         "case_type": "case",
         # corr    : model (fed the interpreter oracle measured on a throw-away branch) vs real DeliverTx, tx by tx
         # monitor : the C19 statement (step_ok) on the observed before/after states only
         # gasrule : GasUsed of the response = interpreter consumption - capped refund, floored at the minimum
-        "checks": {"corr": "check_case", "monitor": "monitor_case", "gasrule": "gasrule_case"},
-        "kinds": {"corr": "corr", "monitor": "monitor", "gasrule": "monitor"},
+        # agree   : Model.deliver and MultiTx.deliver_multi on a one-element list give the same result and state
+        "checks": {"corr": "check_case", "monitor": "monitor_case", "gasrule": "gasrule_case", "agree": "agree_case",
+                   # blockgas: a tx refused by a named admission check leaves the block gas meter alone (finding F2)
+                   "blockgas": "blockgas_case"},
+        "kinds": {"corr": "corr", "monitor": "monitor", "gasrule": "monitor", "agree": "corr", "blockgas": "monitor"},
         "n_quick": 200,
         "n_thorough": 3000,
     }, {
-        # one cosmos tx carrying 2-4 MsgEthereumTx (same or mixed senders): monitor only, the statement summed over the messages
+        # one cosmos tx carrying 2-4 MsgEthereumTx (same or mixed senders): corr = MultiTx.deliver_multi vs real DeliverTx;
+        # monitor = the statement summed over the messages; noncerule = sequence rule (as found or repaired)
         "name": "evmmulti",
         "harness": "c19multi",
         "header": "From Coq Require Import List String ZArith.\nFrom Exo Require Import Base.IntDec Base.Util C19.Model C19.Multi.\nImport ListNotations.",
         "case_type": "mcase",
-        "checks": {"monitor": "mmonitor_case", "noncerule": "mnonce_case"},
-        "kinds": {"monitor": "monitor", "noncerule": "corr"},
+        "checks": {"corr": "mcheck_case", "monitor": "mmonitor_case", "noncerule": "mnonce_case"},
+        "kinds": {"corr": "corr", "monitor": "monitor", "noncerule": "corr"},
         "n_quick": 120,
         "n_thorough": 1500,
+    }, {
+        # block A (transfers aimed at the gas target), its EndBlock (block gas wanted) and the BeginBlock of A+1 (new base fee)
+        "name": "basefee",
+        "harness": "c19basefee",
+        "header": "From Coq Require Import List String ZArith.\nFrom Exo Require Import Base.IntDec Base.Util C19.Model C19.BaseFee.\nImport ListNotations.",
+        "case_type": "bfcase",
+        "checks": {"corr": "bfcheck_case", "monitor": "bfmonitor_case"},
+        "kinds": {"corr": "corr", "monitor": "monitor"},
+        "n_quick": 150,
+        "n_thorough": 2000,
     }],
     "rule": ("each case = one block of a real ExocoreApp chain (state carries over from case to case): fee-market params drawn per block "
              "(base fee on/off and value, MinGasPrice 0 / 1e-18 / 1500000000.5 / random integer, MinGasMultiplier 0, 1/3, 0.5, 1, random permille), "
@@ -42,7 +56,11 @@ PROP = {
              "pair. Suite evmmulti: one cosmos tx with 2-4 MsgEthereumTx (one or mixed senders; transfers, store calls, revert, out of "
              "gas, creation, precompile deposit +- revert; nonce gap / intrinsic-gas error / price below base fee now and then); first 4 cases = "
              "directed scenario [create, then more messages of the same sender] tagged kf-C19-multimsg-create-nonce-reset, the random stream never "
-             "produces that shape. distinct = sha1 of the case; non-trivial = at least one transaction was included"),
+             "produces that shape (since the repair e884872 it does). Suite evmfee case 0 = directed scenario of finding F2 (fee above balance, then a "
+             "transfer that exactly fits the block), cases containing a fee-above-balance tx carry tag kf-C19-rejected-consumes-block-gas. Suite "
+             "basefee: per case fee-market params (NoBaseFee, base fee, elasticity 1-4, denominator 1/2/8/50, MinGasPrice, MinGasMultiplier), "
+             "consensus MaxGas -1/200k-600k, block A with 0-3 real transfers whose gas limits land the wanted gas on target/+-1/anywhere, then "
+             "EndBlock and the next BeginBlock. distinct = sha1 of the case; non-trivial = at least one transaction was included"),
     "explanation": ("Theorems (Coq, no axioms) about an executable model of DeliverTx for one Ethereum transaction (baseapp block-gas gate and "
                     "cache branches, evm ante chain, ApplyTransaction tail, GasToRefund, minimum gas, RefundGas, tmpCtx commit rule) and for "
                     "sequences of transactions sharing the block gas meter and the fee collector: sender/collector/recipient deltas, gas bounds, "
@@ -51,8 +69,12 @@ PROP = {
                     "branch of the deliver state with a vm.EVMLogger. The model is tied to the code by differential execution against real "
                     "ABCI DeliverTx of signed transactions (every observed balance, sequence, block gas, response and store digest compared), "
                     "and the statement step_ok - proved of every model step - is evaluated directly on the implementation's observations. "
-                    "Multi-message transactions: the statement summed over the messages is monitored on the implementation (no transition model); "
-                    "the sequence rule is modelled, refuted as found (replayable messages, known finding F1) and proved for the prepared repair."),
+                    "Multi-message transactions have their own transition model (MultiTx.v: ante over all messages, per-message ApplyTransaction, "
+                    "error return fails the whole tx) with the accounting/nonce/zero-sum/solvency theorems lifted to lists of such transactions, "
+                    "tied by suite evmmulti (corr + summed statement as monitor); the as-found sequence rule is refuted (F1, fixed e884872). "
+                    "Blocks are chained by a model of the fee market (BaseFee.v: EndBlock gas wanted, CalculateBaseFee) tied by suite basefee; "
+                    "every included tx of every block pays at least the base fee derived from the previous block. Finding F2: a tx refused for "
+                    "balance-below-fee consumes block gas (monitor blockgas, refuted theorem, directed case, repair patch)."),
     "trusted_base": KERNEL_TB + [
         "modelled, not verified (hand-written Gallina transcription tied by differential execution): cosmos-sdk baseapp.runTx (block gas gate, "
         "ante/msg cache branches, deferred consumeBlockGas), app/ante/evm/{eth.go,fees.go,setup_ctx.go,fee_market.go}, evmos x/evm/keeper.VerifyFee "
@@ -62,8 +84,10 @@ PROP = {
         "(gas burnt, refund counter, failed flag, digest of the stores the execution would leave); measured by executing the same message "
         "beforehand on a cache branch with the ante effects applied by hand (fee moved to the collector, sequence incremented)",
         "sha256 digest over raw KV stores evm, assets, delegation, operator, avs, dogfood, erc20 stands for 'every other store'",
-        "not modelled: signature recovery, protobuf/RLP encoding, the transition of multi-message Ethereum cosmos-txs (monitored only; "
-        "sequence rule modelled in Multi.v), inner value transfers made by contract code "
+        "x/feemarket (evmos fork) CalculateBaseFee / EndBlock / GetBaseFee and app/ante/evm/fee_market.go GasWantedDecorator: hand-transcribed in "
+        "BaseFee.v, tied by suite basefee; the single-message model and the multi-message model on one message are compared by evaluation "
+        "(agree check), not by proof",
+        "not modelled: signature recovery, protobuf/RLP encoding, inner value transfers made by contract code "
         "(generated contracts make none), uint64 overflow of gas arithmetic, PostTxProcessing hook failure (no erc20 token pair registered), "
         "London always active (default chain config), CheckTx/ReCheckTx-only branches",
     ],
